@@ -58,7 +58,9 @@ def run_tlc(spec, cfg, scratch, *, workers=NCPU, timeout=3600, env=None, simulat
     """spec: path of .tla (module found beside its EXTENDS), cfg: path of the .cfg. Returns TlcResult (never raises on violations)."""
     spec = str(spec)
     meta = os.path.join(str(scratch), "meta-" + uuid.uuid4().hex[:12])
-    cmd = ["java", "-XX:+UseParallelGC", "-Xss256m", "-Xmx" + xmx]
+    cmd = ["java", "-XX:+UseParallelGC" if workers > 1 else "-XX:+UseSerialGC", "-Xss128m", "-Xmx" + xmx]
+    if workers == 1:
+        cmd += ["-XX:TieredStopAtLevel=1", "-Xshare:auto"]
     if deque:
         cmd.append("-Dtlc2.tool.queue.IStateQueue=StateDeque")
     cmd += ["-cp", JAR, "tlc2.TLC", "-workers", str(workers), "-metadir", meta, "-noGenerateSpecTE", "-config", str(cfg)]
